@@ -295,11 +295,11 @@ check("C34",
 )
 
 check("C49",
-    pkg="e2e", engine="D-live", scenarios=["C49.stop"], gomaxprocs=4,
+    pkg={"C49.stop": "e2e", "C49.sched": "nebula"}, engine="D-live + C-component", scenarios=["C49.stop", "C49.sched"], scenario_weight={"C49.sched": 20}, gomaxprocs=4,
     quick=tier(400, 45, shrink_s=20, recheck=0), thorough=tier(40000, 1500, shrink_s=60, recheck=0),
     technique="deterministic-schedule simulation of live nodes: 2-4 real nebula instances in one synctest bubble driven by a seeded stimulus/fault schedule in which Control.Stop is injected at tape-chosen points (before Start, while handshaking, with live or relayed tunnels, in the same burst as a reload or other control calls, twice concurrently, followed or not by a restart); oracles on Stop/Wait return, device and socket closure, and the goroutines left in the bubble",
     rule="one run = 2-4 live nodes for 3-13 s (thorough: 5-45 s) of simulated time with stop-heavy stimulus mix; every node is stopped by the end; distinct = distinct (topology, stimulus-kind set, delivery) abstract hash; non-trivial = at least one Stop hit a node that held pending or established tunnels",
-    level_text="Seeded search over stop points: for every stopped node Control.Stop has returned by the next quiescence, Control.Wait returns within 5 s of simulated time, the tun is closed, the socket swallows writes, State is Stopped; after all nodes are stopped and 90 s passed no goroutine other than the driver remains in the bubble (any goroutine, whoever started it); a Stop that blocks on a lock forever is caught by the real-time watchdog (class hang). Evidence, not proof.",
+    level_text="Seeded search over stop points: for every stopped node Control.Stop has returned by the next quiescence, Control.Wait returns within 5 s of simulated time, the tun is closed, the socket swallows writes, State is Stopped; after all nodes are stopped and 90 s passed no goroutine other than the driver remains in the bubble (any goroutine, whoever started it); a Stop that blocks on a lock forever is caught by the real-time watchdog (class hang). Evidence, not proof. C49.sched (component, package nebula): the delayed-work scheduler behind Punchy with queue sizes 1-64, 0-200 items with 0-2 s delays, its worker fast, slow or absent, and its context cancelled at a tape-chosen instant; 10 s later no goroutine of the bubble may remain (a timer that fires after the stop must not wait for a worker that is gone).",
     level_note="Trusted: synctest's goroutine accounting (runtime.Stack bubble labels), the driver. Socket closure is observed through the test double (a closed TesterConn discards injected packets). ssh/stats/dns listeners are not configured.",
     real=D_REAL, stub=D_STUB,
     assumptions=["goroutine order inside a burst is chosen by the Go runtime (GOMAXPROCS=4), not by the tape", "routines=1"],
